@@ -510,14 +510,34 @@ def judge_state(m, patvals):
     if patvals:
         d = diff(patvals, exp)
         if d:
-            return 'I2 stale-or-wrong %s (patterned read)' % d
+            return 'I2 stale-or-wrong %s%s (patterned read)' % (d, _ring_note(m, d, patvals, exp))
     got = read(m, names)
     d = diff(got, exp)
     if d:
-        return 'I2 stale-or-wrong %s' % d
+        return 'I2 stale-or-wrong %s%s' % (d, _ring_note(m, d, got, exp))
     if raw(m) != rw:
         return 'I2 reading changed raw state'
     return None
+
+
+def _ring_note(m, d, got, exp):
+    """classifies one situation independently: the only difference are ring-size marks, and the minimum cycle basis of the graph is not unique
+    (the marks then belong to another, equally minimal, basis than the ring list)"""
+    if d != 'atom_labels':
+        return ''
+    try:
+        a, b = got[d], exp[d]
+        if len(a) != len(b) or any(x[:7] + x[8:] != y[:7] + y[8:] for x, y in zip(a, b)):
+            return ''
+        from ..oracle import cycles
+        adj = {n: {k for k, bd in ms.items() if bd.order != 8} for n, ms in m._bonds.items()}
+        mu = cycles.cyclomatic(adj)
+        rel, _ = cycles.relevant_count(adj)
+        if mu and rel != mu:
+            return ' [ring-size marks of a non-unique minimum cycle basis]'
+    except Exception:
+        pass
+    return ''
 
 
 def transition(seedname, hist, e, pat, parent_kh, i4depth=None):
@@ -535,7 +555,10 @@ def transition(seedname, hist, e, pat, parent_kh, i4depth=None):
     except AssertionError as x:
         return None, 'I3 %s' % x, None
     except Exception as x:
-        return None, 'event raised %s' % type(x).__name__, None
+        import traceback
+        tb = traceback.extract_tb(x.__traceback__)
+        where = tb[-1].name if tb else '?'
+        return None, 'event raised %s in %s on seed %s' % (type(x).__name__, where, seedname), None
     if expect == 'unchanged':
         if raw(m2) != pre_raw:
             return None, 'I3 raw state changed by failing call/transaction', None
